@@ -24,6 +24,8 @@ def modelled : List String := [
   "ff.Element.ToMont",
   "ff.Element.setBigInt",
   "ff.NewElement",
+  "poseidon.<decls>@constants.go",
+  "poseidon.<decls>@poseidon.go",
   "poseidon.Hash",
   "poseidon.HashEx",
   "poseidon.HashWithState",
@@ -37,7 +39,15 @@ def modelled : List String := [
   "utils.BigIntArrayToElementArray",
   "utils.CheckBigIntArrayInField",
   "utils.CheckBigIntInField",
-  "utils.ElementArrayToBigIntArray"
+  "utils.ElementArrayToBigIntArray",
+  "ff.<decls>@arith.go",
+  "ff.<decls>@asm.go",
+  "ff.<decls>@asm_noadx.go",
+  "ff.<decls>@doc.go",
+  "ff.<decls>@element.go",
+  "ff.<decls>@element_ops_amd64.go",
+  "ff.<decls>@element_ops_noasm.go",
+  "utils.<decls>@utils.go"
 ]
 
 theorem source_pinned : modelled.all (same I3.Gen.fingerprints) = true := by decide +kernel
@@ -45,6 +55,6 @@ theorem source_pinned : modelled.all (same I3.Gen.fingerprints) = true := by dec
 theorem function_set_pinned : (["ff.", "poseidon.", "utils."] : List String).all (sameKeys I3.Gen.fingerprints) = true := by
   decide +kernel
 
-theorem modelled_nonempty : 29 = modelled.length := by decide
+theorem modelled_nonempty : 39 = modelled.length := by decide
 
 end I3.Props.C01
